@@ -92,9 +92,10 @@ class TlvStream:
             t = calls[k][2]
             t = t if isinstance(t, int) else z3.simplify(t)
             if not isinstance(t, int):
-                if not z3.is_int_value(t):
+                if z3.is_int_value(t):
+                    t = t.as_long()
+                elif not getattr(self, 'symbolic_types', False):
                     raise X.Unsupported('symbolic TLV type')
-                t = t.as_long()
             self.recs.append(dict(p=calls[k][1], t=t, ty=calls[k + 2][2], v=calls[k + 2][3]))
             k += 3
         return self.recs
